@@ -34,6 +34,15 @@ def main():
             if os.path.exists(p) and os.path.exists(m):
                 meta = json.load(open(m))
                 jobs.append((meta['property'], d, p, 'seeded: ' + meta.get('summary', '')))
+    # changes that were looked at and are no violation of their property (kept in the table as such)
+    NOTES = {
+        'C01_vecfn2_nested_atom': 'not in the explored space: needs an operand with a nested sub-list of >= 3 elements that is itself nested '
+                                  '([[1 [2] 3] 4]^2); the C01 universe has none (such operands fall under the known findings of ^ & | !)',
+        'C10_literal_no_copy': 'equivalent for C10: a shallow copy still gives every evaluation of a dictionary literal a fresh dictionary; the '
+                               'shared values are immutable (no nested dictionary literal exists)',
+        'C16_recover_ge': 'equivalent for C16: evicts one entry more than needed; values, accounting, limit and LRU invariants all still hold',
+        'C01c': 'neutralised by a later fix (see seeded/C01c/meta.json); caught at import time (59 new)',
+    }
     rows = []
     for pid, name, arg, what in jobs:
         if pid not in claimed or (only and pid not in only):
@@ -41,7 +50,7 @@ def main():
         r = subprocess.run([os.path.join(HERE, 'tools', 'run_mutant.py'), arg, pid, '--tier', tier], capture_output=True, text=True)
         m = re.search(r'exit (\d+)', r.stdout)
         new = re.search(r'new=(\d+)', r.stdout)
-        rows.append((pid, name, what, m.group(1) if m else '?', new.group(1) if new else '?'))
+        rows.append((pid, name, what + ((' -- NOTE: ' + NOTES[name]) if name in NOTES else ''), m.group(1) if m else '?', new.group(1) if new else '?'))
         print(rows[-1], flush=True)
     path = os.path.join(HERE, 'MUTANTS.md')
     old_rows = {}
